@@ -93,7 +93,7 @@ ASSUMPTIONS = [
 ]
 EXHAUSTIVE = {"quick": False, "thorough": False}
 
-KEY_POOL = ["nu", "a", "b"]
+KEY_POOL = ["nu", "a", "nu_a"]   # (names contained in one another: keys must be matched exactly, never as substrings)
 READER_LEN = 4
 TERM_NAMES = ["dyn_loss", "initial_condition", "boundary_loss", "norm_loss", "observations"]
 
